@@ -4,3 +4,5 @@
 
 pub use crate::item::{parse_criteria, ItemPool, MatchedItem, RankBuilder, RankCriteria};
 pub use crate::orderedvec::OrderedVec;
+pub use crate::event::{parse_event, Event, EventHandler, UpdateScreen};
+pub use crate::query::Query;
